@@ -177,12 +177,14 @@ static void s_limiter_int(long c) { int t = 2 + (int)(c % 2); c /= 2; int k = (i
     vtbb::finish();
 }
 // ================================================================ overwrite_node / write_once_node
-static void s_ow(long c) { int once = (int)(c % 2); c /= 2; int n = 4; int ops[4]; for (int i = 0; i < n; i++) { ops[i] = (int)(c % 3); c /= 3; }   // 0 put next value, 1 add a successor, 2 try_get
+static void s_ow(long c) { int once = (int)(c % 2); c /= 2; int via = (int)(c % 2); c /= 2; int n = 5; int ops[5]; for (int i = 0; i < n; i++) { ops[i] = (int)(c % 4); c /= 4; }   // 0 put next value, 1 add a successor, 2 try_get, 3 clear;  via=1: the puts arrive through a broadcast_node in front (an edge that a refused message must not destroy)
     vtbb::init(2); std::string trace; int nsucc = 0; for (int i = 0; i < n; i++) nsucc += ops[i] == 1; if (nsucc > 2) { vf_outcome("skip"); return; }
-    { graph g; overwrite_node<int> ow(g); write_once_node<int> wo(g); std::vector<int> got[2]; int added = 0, nput = 0; bool has = false; int cur = 0; std::vector<std::vector<int>> expect(2);
+    { graph g; overwrite_node<int> ow(g); write_once_node<int> wo(g); broadcast_node<int> front(g); if (via) { if (once) make_edge(front, wo); else make_edge(front, ow); } std::vector<int> got[2]; int added = 0, nput = 0; bool has = false; int cur = 0; std::vector<std::vector<int>> expect(2);
       function_node<int, continue_msg> S0(g, unlimited, [&](int v) { got[0].push_back(v); pump(); return continue_msg(); }); function_node<int, continue_msg> S1(g, serial, [&](int v) { got[1].push_back(v); pump(); return continue_msg(); });
-      for (int i = 0; i < n; i++) { trace += "PSG"[ops[i]];
-          if (ops[i] == 0) { int v = 10 + (++nput); bool ok = once ? wo.try_put(v) : ow.try_put(v); bool should = !once || !has; if (ok != should) vf_fail("%s try_put(%d) returned %d [%s]", once ? "write_once_node" : "overwrite_node", v, ok, trace.c_str()); if (should) { has = true; cur = v; for (int s = 0; s < added; s++) expect[s].push_back(v); } }
+      for (int i = 0; i < n; i++) { trace += "PSGC"[ops[i]];
+          if (ops[i] == 3) { if (once) wo.clear(); else ow.clear(); has = false; }
+          else if (ops[i] == 0 && via) { int v = 10 + (++nput); front.try_put(v); g.wait_for_all(); bool should = !once || !has; if (should) { has = true; cur = v; for (int s2 = 0; s2 < added; s2++) expect[s2].push_back(v); } }
+          else if (ops[i] == 0) { int v = 10 + (++nput); bool ok = once ? wo.try_put(v) : ow.try_put(v); bool should = !once || !has; if (ok != should) vf_fail("%s try_put(%d) returned %d [%s]", once ? "write_once_node" : "overwrite_node", v, ok, trace.c_str()); if (should) { has = true; cur = v; for (int s = 0; s < added; s++) expect[s].push_back(v); } }
           else if (ops[i] == 1) { if (added == 0) { if (once) make_edge(wo, S0); else make_edge(ow, S0); } else { if (once) make_edge(wo, S1); else make_edge(ow, S1); } if (has) expect[added].push_back(cur); added++; }
           else { int v = -1; bool ok = once ? wo.try_get(v) : ow.try_get(v); if (ok != has || (ok && v != cur)) vf_fail("%s try_get returned %d/%d, expected %d/%d [%s]", once ? "write_once_node" : "overwrite_node", ok, v, has, cur, trace.c_str()); }
           pump(); }
@@ -209,7 +211,7 @@ static std::vector<Block> blocks; static const char* only = nullptr; static cons
 static void scenario(long c) { for (auto& b : blocks) { if (c < b.count) { b.fn(c); return; } c -= b.count; } }
 int main(int argc, char** argv) {
     for (int i = 1; i + 1 < argc; i++) if (!strcmp(argv[i], "-p")) { if (!strncmp(argv[i + 1], "only=", 5)) only = argv[i + 1] + 5; if (!strncmp(argv[i + 1], "skip=", 5)) skip = argv[i + 1] + 5; if (!strncmp(argv[i + 1], "depth=", 6)) DEPTH = atoi(argv[i + 1] + 6); if (!strncmp(argv[i + 1], "prefills=", 9)) { PREFILLS.clear(); for (const char* q = argv[i + 1] + 9; *q;) { PREFILLS.push_back((int)strtol(q, (char**)&q, 10)); if (*q == '.') q++; } } }
-    Block all[] = {{"seq", 4 * (long)PREFILLS.size() * seq_count(DEPTH), s_seq}, {"seqr", 3 * 2 * 3 * 24, s_seqr}, {"join", 3 * 3 * 3 * 2 * 3 * 64, s_join}, {"limiter", 2 * 3 * 243, s_limiter}, {"limiterint", 2 * 4 * 2 * 3 * 1024, s_limiter_int}, {"ow", 2 * 81, s_ow}, {"route", 3 * 3 * 2, s_route}};
+    Block all[] = {{"seq", 4 * (long)PREFILLS.size() * seq_count(DEPTH), s_seq}, {"seqr", 3 * 2 * 3 * 24, s_seqr}, {"join", 3 * 3 * 3 * 2 * 3 * 64, s_join}, {"limiter", 2 * 3 * 243, s_limiter}, {"limiterint", 2 * 4 * 2 * 3 * 1024, s_limiter_int}, {"ow", 2 * 2 * 1024, s_ow}, {"route", 3 * 3 * 2, s_route}};
     for (auto& b : all) if ((!only || !strcmp(only, b.name)) && (!skip || strcmp(skip, b.name))) blocks.push_back(b);
     long n = 0; for (auto& b : blocks) n += b.count; return vf_main_cases(argc, argv, n, scenario);
 }
